@@ -226,6 +226,21 @@ func (u *UnitGen) run() {
 	// every other mutex is not held by this call chain on entry: lock arrays start at 0
 	// (assumed lazily, see lockInit)
 	env.old = st
+	// spec-level axioms about ghost functions (each is listed as an assumption)
+	for _, ax := range u.g.specs.Axioms {
+		usesGhost := false
+		for name := range u.g.specs.GhostFns {
+			if strings.Contains(ax.Text, name+"(") && u.contractMentions(name) {
+				usesGhost = true
+			}
+		}
+		if !usesGhost {
+			continue
+		}
+		aenv := &Env{u: u, vars: map[string]Val{}, cur: st, old: st, pkgPath: ""}
+		u.assumeRaw(aenv.evalBool(ax.E))
+		u.assumed["axiom "+ax.Src] = ax.Text
+	}
 	var reqs []Term
 	for _, c := range u.contract.Requires {
 		t := env.evalBool(c.E)
@@ -246,6 +261,13 @@ func (u *UnitGen) run() {
 	// different region generations merge them explicitly
 	u.preRegister(fn, env, entry)
 	exits := u.execRegion(fr, fn.Blocks[0], nil, st, nil)
+	nres := fn.Signature.Results().Len()
+	for _, ab := range u.abnormal {
+		for i := 0; i < nres; i++ {
+			ab.results = append(ab.results, reg.Zero(fn.Signature.Results().At(i).Type()))
+		}
+		exits = append(exits, ab)
+	}
 	if len(exits) == 0 {
 		u.note("function has no normal exit")
 		return
@@ -256,7 +278,11 @@ func (u *UnitGen) run() {
 	}
 	final := u.merge("exit", ins)
 	n := fn.Signature.Results().Len()
-	post := &Env{u: u, vars: map[string]Val{}, cur: final, old: entry, pkgPath: u.contract.Pkg, fr: nil}
+	var postFr *Frame
+	if len(fn.FreeVars) > 0 {
+		postFr = fr // closures: captured variables are resolved through the frame
+	}
+	post := &Env{u: u, vars: map[string]Val{}, cur: final, old: entry, pkgPath: u.contract.Pkg, fr: postFr}
 	for k, v := range env.vars {
 		post.vars[k] = v
 	}
@@ -287,8 +313,21 @@ func (u *UnitGen) run() {
 		}
 	}
 	if len(exits) > 1 {
+		for i, e := range exits {
+			if !exitCovers {
+				break
+			}
+			u.curPos = e.pos
+			if cv := u.oblige(final, "cover", fmt.Sprintf("cover:exit#%d", i+1), "this return is reachable under the assumptions made (an unreachable return passes its postconditions vacuously)", TTrue); cv != nil {
+				cv.Cover = true
+				cv.ExitCover = true
+				cv.Result, cv.Backend = "", ""
+				cv.Goal = e.st.reach
+			}
+		}
+		u.curPos = "exit"
 		for _, e := range exits {
-			pe := &Env{u: u, vars: map[string]Val{}, cur: e.st, old: entry, pkgPath: u.contract.Pkg}
+			pe := &Env{u: u, vars: map[string]Val{}, cur: e.st, old: entry, pkgPath: u.contract.Pkg, fr: postFr}
 			for k, v := range env.vars {
 				pe.vars[k] = v
 			}
@@ -735,4 +774,42 @@ func terminalKind(k string) bool {
 		return true
 	}
 	return strings.HasPrefix(k, "inv-pres")
+}
+
+// contractMentions reports whether the unit's contract text (with the predicates it uses) mentions name.
+func (u *UnitGen) contractMentions(name string) bool {
+	seen := map[string]bool{}
+	var mentions func(text string) bool
+	mentions = func(text string) bool {
+		if strings.Contains(text, name+"(") {
+			return true
+		}
+		for pn, p := range u.g.specs.Preds {
+			if !seen[pn] && strings.Contains(text, pn+"(") {
+				seen[pn] = true
+				if mentions(p.Text) {
+					return true
+				}
+			}
+		}
+		return false
+	}
+	for _, c := range u.contract.Requires {
+		if mentions(c.Text) {
+			return true
+		}
+	}
+	for _, c := range u.contract.Ensures {
+		if mentions(c.Text) {
+			return true
+		}
+	}
+	for _, l := range u.contract.Loops {
+		for _, c := range l.Invs {
+			if mentions(c.Text) {
+				return true
+			}
+		}
+	}
+	return false
 }
